@@ -95,13 +95,11 @@ theorem gen_trans_unc_eq : @SLV.Gen.trans_unc = @SLV.BOp.transUnc := rfl
 theorem gen_trans_opp_eq : @SLV.Gen.trans_opp = @SLV.BOp.transOpp := rfl
 theorem gen_trans_bsr_eq : @SLV.Gen.trans_bsr = @SLV.BOp.transBsr := rfl
 
-/- `BOpinion::deduce`.  The model returns the opinion together with a coverage tag (`DCase`, not part of
-    the Rust code) and computes `k` in the separate function `deduceK`; the Rust text has one function with
-    `match (b0 > b1, d0 > d1) { (true, true) | (false, false) => 0.0, _ if b0 == b1 || d0 == d1 => 0.0, (bp, _) => .. }`
-    where the model writes `if bp == dp .. else if Scalar.eq b0 b1 || Scalar.eq d0 d1 .. else ..` (the translator renders
-    the guarded catch-all arm as `| _, _ => if guard then .. else (match <same scrutinee> with | bp, _ => ..)`).
-    Case split on the Booleans involved (the two `>` of the selector, the two `==` of the guard, then the two `>` of
-    the sub-case selector), then `rfl` in each of the cases. -/
+/- `BOpinion::deduce` (repair b163717).  The model returns the opinion together with a coverage tag (`DCase`, not part of
+    the Rust code) and computes `k` in the separate function `deduceK`, which returns the pair (k, tag); the Rust text has
+    one function with `let k = match (b0 > b1, d0 > d1) { (true, true) | (false, false) => 0.0,
+    (true, false) => { let ka = ..; let kb = ..; ka.min(kb) }, (false, true) => { .. } }` (`r.min(s)` on `$ft` operands
+    ↦ `Scalar.min r s`, the NaN-skipping `f64::min`).  Case split on the two Booleans of the selector, then `rfl`. -/
 theorem gen_deduce_eq :
     @SLV.Gen.deduce = fun (α : Type) (_ : Scalar α) (x : BOp α) (c0 c1 : α × α × α) (ay : α) =>
       (SLV.BOp.deduce x c0 c1 ay).1 := by
@@ -110,15 +108,7 @@ theorem gen_deduce_eq :
   dsimp only
   generalize gt c0.1 c1.1 = bp
   generalize gt c0.2.1 c1.2.1 = dp
-  generalize Scalar.eq c0.1 c1.1 = be
-  generalize Scalar.eq c0.2.1 c1.2.1 = de
-  cases bp <;> cases dp <;> try rfl
-  all_goals
-    cases be <;> cases de <;> try rfl
-  all_goals
-    dsimp only [SLV.Gen.projection, SLV.BOp.projection]
-    simp only [Bool.false_eq_true, if_false, if_true, Bool.or_self]
-    split <;> simp only [*] <;> rfl
+  cases bp <;> cases dp <;> rfl
 
 /-! ### src/convert.rs -/
 
